@@ -79,6 +79,8 @@ type Cfg struct {
 	CustomHasher     bool     // Config.Core.Hasher is the application's own salted-SHA hasher (own error values), not the shipped bcrypt one
 	FoldPIDs         bool     // the storer looks identifiers up case-insensitively (a *_ci collation, citext)
 	AppHooksFirst    bool     // the application registers its event listeners before it initialises the modules
+	ZoneLessStore    bool     // the storer's timestamp columns keep no zone
+	ClockZone        int      // seconds east of UTC of the server process' local zone (what time.Now() carries)
 	PersistArbitrary bool     // the user type stores every key PutArbitrary hands it (only sensible with an explicit RegWhitelist)
 }
 
@@ -266,12 +268,16 @@ func New(cfg Cfg, salt string) (w *World, err error) {
 		}
 	}()
 	w = &World{Cfg: cfg, sidSalt: salt, now: epoch}
+	if cfg.ClockZone != 0 {
+		w.now = epoch.In(time.FixedZone("srv", cfg.ClockZone)) // the same instant, as a server in that zone reads it
+	}
 	verifclock.Set(w.now)
 	w.Store = newStorer(w)
 	w.Store.OneTime = cfg.OneTimeTOTP
 	w.Store.ProfileKeys = cfg.ProfileKeys
 	w.Store.PersistAll = cfg.PersistArbitrary
 	w.Store.FoldPIDs = cfg.FoldPIDs
+	w.Store.ZoneLess = cfg.ZoneLessStore
 	if cfg.StoreTZ != 0 {
 		w.Store.TimeLoc = time.FixedZone("db", cfg.StoreTZ)
 	}
